@@ -240,7 +240,7 @@ func GenOp(t *rapid.T, r *Runner, pool *KeyPool, p *GenProfile) Op {
 		if n == 0 {
 			n = 8
 		}
-		return Op{K: "iter", Iter: GenIterOp(t, r, pool, n, p.IterWrites)}
+		return Op{K: "iter", Iter: GenIterOp(t, r, pool, n, p.IterWrites, p.Weights["batch"] > 0)}
 	}
 	if kind == "merge" && p.MergeRaces && Pct(t, 55, "races") {
 		op := Op{K: "merge"}
@@ -325,7 +325,7 @@ func GenBatch(t *rapid.T, r *Runner, pool *KeyPool, p *GenProfile) Op {
 // GenIterOp draws an iterator session: calls whose Seek targets are drawn
 // around the snapshot keys; seeks that turn out to point backwards at run
 // time are skipped (and counted) by the executor.
-func GenIterOp(t *rapid.T, r *Runner, pool *KeyPool, maxCalls int, writes bool) *IterOp {
+func GenIterOp(t *rapid.T, r *Runner, pool *KeyPool, maxCalls int, writes bool, batches bool) *IterOp {
 	it := &IterOp{Reverse: rapid.Bool().Draw(t, "reverse")}
 	switch U(t, 6, "prefixkind") {
 	case 0, 1, 2:
@@ -349,10 +349,20 @@ func GenIterOp(t *rapid.T, r *Runner, pool *KeyPool, maxCalls int, writes bool) 
 		default:
 			key := pool.Draw(t, "wkey")
 			var w Op
-			if rapid.Bool().Draw(t, "wdel") {
+			switch x := U(t, 100, "wkind"); {
+			case x < 30:
 				w = Op{K: "del", Key: key}
-			} else {
+			case x < 70 || maxCalls <= 6:
 				w = Op{K: "put", Key: key, VLen: rapid.IntRange(0, 200).Draw(t, "wlen"), VSeed: r.NextSeed()}
+			case x < 85:
+				// a second iterator, opened and used while this one is open (each has the snapshot of its own creation)
+				w = Op{K: "iter", Iter: GenIterOp(t, r, pool, 6, true, false)}
+			case x < 92:
+				w = Op{K: "fold", N: U(t, 4, "nstop")}
+			case x < 96 || !batches:
+				w = Op{K: "listkeys"}
+			default:
+				w = Op{K: "batch", Ops: []Op{{K: "bput", Key: key, VLen: rapid.IntRange(0, 200).Draw(t, "wblen"), VSeed: r.NextSeed()}, {K: "bdel", Key: pool.Draw(t, "wbkey")}}}
 			}
 			it.Calls = append(it.Calls, IterCall{C: "write", Op: &w})
 		}
